@@ -23,7 +23,7 @@ STYLES = (("causal", False), ("centered", False), ("centered", True))
 FLAGS = list(itertools.product((True, False), (False, True), (False, True)))  # log, power, energy
 
 
-VARIANTS = ("generic", "zeros", "loud_then_quiet", "outlier", "tiny")
+VARIANTS = ("generic", "zeros", "loud_then_quiet", "outlier", "tiny", "strided", "reversed_view")
 
 
 def _signal(seed, N, variant):
@@ -43,6 +43,12 @@ def _signal(seed, N, variant):
             x[1] = 1e8
     elif variant == "tiny":
         x = x * 1e-3
+    elif variant == "strided":
+        big = np.full(2 * N + 1, 777.0)       # same samples as a non-contiguous view
+        big[1::2] = x
+        x = big[1::2]
+    elif variant == "reversed_view":
+        x = np.array(x[::-1], copy=True)[::-1]  # negative stride
     return x
 
 
@@ -81,7 +87,7 @@ def _eval(pt, seed):
             for variant in VARIANTS if N in (L, 3 * L + S) else ("generic",):
                 x = _signal(seed, N, variant)
                 evals += 1
-                r = computers.call(comp.compute_full, sig.ro(x))
+                r = computers.call(comp.compute_full, sig.rov(x))
                 case = dict(config=c, N=N, signal=variant)
                 try:
                     want = ref.compute_full(x, bank, L, S, Dexp, w, style, kaldi, use_log,
@@ -103,7 +109,7 @@ def _eval(pt, seed):
                     nontriv += 1
                 # round-off of an FFT is relative to the LARGEST term of a frame: with a dynamic
                 # range of 1e8..1e12 inside one frame small coefficients carry ~1e-8 relative noise
-                tol = 1e-9 if variant in ("generic", "zeros", "tiny") else 1e-5
+                tol = 1e-5 if variant in ("loud_then_quiet", "outlier") else 1e-9
                 if use_log:
                     ok = np.all(np.abs(got - want) <= tol + tol * np.abs(want))
                 else:
@@ -143,7 +149,7 @@ def _replay(case, seed):
     x = _signal(seed, N, case["signal"])
     want = ref.compute_full(x, bank, L, S, D, win.get_impulse_response(L), c["style"], c["kaldi"],
                             c["log"], c["power"], c["energy"], config.LOG_FLOOR_VALUE)
-    r = computers.call(comp.compute_full, sig.ro(x))
+    r = computers.call(comp.compute_full, sig.rov(x))
     tags = dict(bank=type(bank).__name__, real=bool(bank.is_real), style=c["style"],
                 kaldi=c["kaldi"], Dmod4=D % 4, pad=c["pad"])
     if r[0] != "ok":
@@ -151,7 +157,7 @@ def _replay(case, seed):
     got = r[1]
     if got.shape != want.shape:
         return core.result([core.violation(dict(tags, what="shape"), "%r vs %r" % (got.shape, want.shape), case)])
-    tol = 1e-9 if case["signal"] in ("generic", "zeros", "tiny") else 1e-5
+    tol = 1e-5 if case["signal"] in ("loud_then_quiet", "outlier") else 1e-9
     if not np.all(np.abs(got - want) <= tol + tol * np.abs(want)):
         bad = np.argwhere(~(np.abs(got - want) <= tol + tol * np.abs(want)))
         return core.result([core.violation(
@@ -270,6 +276,17 @@ def subchecks(tier, seed):
                 for L in (4, 7, 8, 11, 12, 16):
                     for pad in (True, False):
                         pts.append((b, L, 3, pad, STYLES[1], "hamming"))
+    # realistic geometry (25 ms / 10 ms at 8 and 16 kHz, 40- and 23-filter banks, also the odd-shift
+    # 44.1 kHz framing 1102/441) - a few points, but every index computation at full size
+    for rate, nf in ((8000, 23), (16000, 40), (44100, 12)) if tier == "thorough" else ((8000, 10),):
+        L, S = int(0.025 * rate), int(0.010 * rate)
+        for name in ("fbank", "gabor", "tri"):
+            b = {"name": name, "num_filts": nf, "low_hz": 20.0, "sampling_rate": rate}
+            if name != "fbank":
+                b["scaling_function"] = "mel"
+            for pad in (True, False):
+                for st in STYLES:
+                    pts.append((b, L, S, pad, st, "hamming"))
     dl = []
     for rate in (1000, 8000, 16000):
         for nf in (2, 5, 11) + ((40,) if tier == "thorough" else ()):
